@@ -127,7 +127,8 @@ def programs(draw):
             else:
                 qty = mag if draw(st.booleans()) else -mag
             net[a] += qty
-            comm = draw(st.one_of(st.just(0.0), st.floats(0, 50).map(lambda x: round(x, 4))))
+            comm = draw(st.one_of(st.just(0.0), st.floats(0, 50).map(lambda x: round(x, 4)),
+                                  st.sampled_from([0.0, 0.004, -0.75, -12.5])))       # incl. sub-cent fees and rebates
             price = draw(gen.prices)
             if draw(st.sampled_from([False] * 11 + [True])):
                 # an order sized down to zero shares, at the price the asset was last seen at
